@@ -369,7 +369,11 @@ Final(w, o, s, r) ==
       \* C10: the layers of a sequential run appear once each, unit layer
       \* first, never before one of their bases that also has tests
       RunLayers == {LayerOf(w, t) : t \in Selected(w, o)}
-      c10 == IF o.list \/ o.stop \/ o.j > 1 \/ r.crashed # "" \/ s.procs > 1 \/ w.importFails THEN ""
+      c10 == IF o.list \/ o.stop \/ r.crashed # "" \/ w.importFails THEN ""
+             \* layers in subprocesses: each of the world's layers still appears as one group
+             ELSE IF o.j > 1 \/ s.procs > 1
+                  THEN (IF ~NoDup(SelectSeq(r.layers, LAMBDA l : l \in Layers(w) \cup {Unit}))
+                        THEN "C10:layer-run-twice" ELSE "")
              ELSE IF ~NoDup(r.layers) THEN "C10:layer-run-twice"
              ELSE IF SeqSet(r.layers) # RunLayers THEN "C10:layers-run-differ-from-selected"
              ELSE IF ~TopoSeq(w.bases, r.layers) THEN "C10:layer-before-its-base"
